@@ -95,6 +95,7 @@ def run_proofs(report, prop, modules, timeout_ms=None):
                 if not mine_ and o["result"] != "proved":
                     # an obligation owned by other properties only: reported by their checks, not counted here
                     report.coverage.setdefault("foreign_undischarged", []).append(o["name"])
+                    report.say(f"NOTE property={prop}: obligation {o['name']} (tags {o['tags']}) is {o['result']}; it belongs to other properties' checks")
                     continue
                 tot += 1
                 f_tot += 1
